@@ -362,9 +362,13 @@ impl AsServer<'_> {
                     .position(|p| matches!(p, Protocol::Ip4(_) | Protocol::Ip6(_)))?;
                 let mut addr = addr.replace(i, |_| Some(observed_ip.clone()))?;
 
-                let is_valid = addr.iter().all(|proto| match proto {
+                let last = addr.iter().count() - 1;
+                let is_valid = addr.iter().enumerate().all(|(n, proto)| match proto {
                     Protocol::P2pCircuit => false,
-                    Protocol::P2p(peer_id) => peer_id == peer,
+                    // The peer id may only be the final component, where it names the requester.
+                    Protocol::P2p(peer_id) => n == last && peer_id == peer,
+                    // Only the observed IP may ever be dialed, wherever an IP occurs.
+                    Protocol::Ip4(_) | Protocol::Ip6(_) => proto == observed_ip,
                     _ => true,
                 });
 
